@@ -162,6 +162,17 @@ func buildItems(tr tiers, seed uint64) []item {
 	for i, f := range workload.Finite {
 		add(Data{Src: f.Src, Input: kernel.ValueSpec{JSON: f.In}, Mode: "A", Origin: "finite", ViaQuery: i%5 == 0})
 	}
+	for _, src := range iterProgs {
+		for _, in := range []string{`{"a":[1,2],"b":null}`, `[1,[2],"x"]`} {
+			add(Data{Src: src, Input: kernel.ValueSpec{JSON: in}, Mode: "A", Origin: "custom-iterators"})
+		}
+	}
+	// the same inside the usual wrappers
+	wr := kernel.NewRand(kernel.Mix(seed, 7, 5))
+	for i := 0; i < tr.Compose/2; i++ {
+		src := strings.ReplaceAll(kernel.Pick(wr, wrappers), "%P%", kernel.Pick(wr, iterProgs))
+		add(Data{Src: src, Input: kernel.ValueSpec{JSON: kernel.Pick(wr, []string{`{"a":[1,2],"b":null}`, `[1,[2],"x"]`, `null`})}, Mode: "A", Origin: "custom-iterators-composed"})
+	}
 	corpus, _ := workload.Corpus()
 	for i, p := range corpus {
 		if !workload.Deterministic(p.Src) {
@@ -247,8 +258,42 @@ type inputIter struct{ w *world }
 
 func (t *inputIter) Next() (any, bool) { t.w.tick(); t.w.inputN++; return t.w.inputN, true }
 
+// Custom functions registered in every compile: iterator functions returning every kind of
+// iterator NewIter can make (empty, one value, one error, several values, a value-error-value
+// sequence) and a plain function returning an error.
+func customFunctions() []gojq.CompilerOption {
+	return []gojq.CompilerOption{
+		gojq.WithIterFunction("it0", 0, 0, func(v any, _ []any) gojq.Iter { return gojq.NewIter[any]() }),
+		gojq.WithIterFunction("it1", 0, 0, func(v any, _ []any) gojq.Iter { return gojq.NewIter(v) }),
+		gojq.WithIterFunction("iterr", 0, 0, func(v any, _ []any) gojq.Iter { return gojq.NewIter[any](errors.New("iterator function error")) }),
+		gojq.WithIterFunction("it2", 0, 0, func(v any, _ []any) gojq.Iter { return gojq.NewIter(v, v) }),
+		gojq.WithIterFunction("itve", 0, 0, func(v any, _ []any) gojq.Iter { return gojq.NewIter[any](v, errors.New("middle error"), v) }),
+		gojq.WithIterFunction("itn", 1, 1, func(v any, args []any) gojq.Iter {
+			n, _ := args[0].(int)
+			vs := make([]any, 0, max(0, min(n, 50)))
+			for i := 0; i < n && i < 50; i++ {
+				vs = append(vs, i)
+			}
+			return gojq.NewIter(vs...)
+		}),
+		gojq.WithFunction("ferr", 0, 0, func(v any, _ []any) any { return errors.New("function error") }),
+		gojq.WithFunction("fid", 0, 1, func(v any, _ []any) any { return v }),
+	}
+}
+
+// iterProgs: custom iterator functions in every calling context (with and without a pending fork).
+var iterProgs = []string{
+	`it0`, `it1`, `iterr`, `it2`, `itve`, `itn(3)`, `ferr`, `fid`, `fid(1)`,
+	`.a | iterr`, `iterr | tostring`, `1, iterr`, `iterr, 1`, `{a: iterr}`, `{a: it1, b: iterr}`, `[iterr]`, `[it1]`, `iterr?`, `(iterr)?`, `.[] | iterr`, `.[] | it1`, `try iterr catch .`, `iterr // 1`, `it0 // 1`,
+	`it2 | iterr`, `limit(1; itve)`, `first(iterr)`, `first(itve)`, `[limit(2; itve)]`, `path(it1)`, `path(iterr)?`, `reduce iterr as $x (0; .)`, `reduce it2 as $x (0; . + 1)`, `foreach itve as $x (0; . + 1)`, `label $l | iterr`,
+	`label $l | it2 | ., break $l`, `iterr as $x | $x`, `it1 as $x | iterr`, `def f: iterr; f`, `def f(g): g; f(iterr)`, `def f(g): g; f(it2)`, `1 + iterr`, `iterr + 1`, `if iterr then 1 else 2 end`, `if . then iterr else it1 end`,
+	`.[iterr]?`, `"\(iterr)"`, `itve | tostring`, `[itve]`, `[itve?]`, `itve?`, `try itve catch "c"`, `itn(0)`, `itn(1)`, `[itn(4)] | length`, `itn(3) | iterr`, `itn(2) | itve`, `isempty(iterr)`, `isempty(it0)`, `any(itve; true)`,
+	`ferr | tostring`, `{a: ferr}`, `[ferr]`, `ferr?`, `try ferr catch .`, `1, ferr, 2`, `.[] | ferr`, `it1 | ferr`, `itve | ferr`, `ferr, iterr`, `iterr, ferr, it1`, `(iterr, ferr)?`, `repeat(it1)`, `repeat(itve)?`, `recurse(it0)`, `[limit(5; repeat(it2))]`,
+	`.[] |= it1`, `.[] |= it0`, `.[] |= iterr`, `del(it0)`, `path(.[] | it1)`, `to_entries | map(it1)`, `map(itve)?`, `map(it0)`, `with_entries(it1)`, `sort_by(it1)`, `group_by(it2)?`, `walk(it1)`, `limit(3; it2, itve, it1)`, `first(it0, it1)`, `[first(it2), last(it2)]`,
+}
+
 func (w *world) options(d *Data) []gojq.CompilerOption {
-	var opts []gojq.CompilerOption
+	opts := customFunctions()
 	if len(d.VarNames) > 0 {
 		opts = append(opts, gojq.WithVariables(d.VarNames))
 	}
